@@ -1,3 +1,4 @@
+import threading
 from collections.abc import Callable
 from typing import Generic, TypeVar
 
@@ -17,20 +18,24 @@ class _DelayState(Generic[T]):
 
 
 class Delay(IDeref[T], IPending):
-    __slots__ = ("_state",)
+    __slots__ = ("_lock", "_state")
 
     def __init__(self, f: Callable[[], T]) -> None:
+        self._lock = threading.RLock()
         self._state = atom.Atom(_DelayState(f=f, value=None, computed=False))
 
-    @staticmethod
-    def __deref(state: _DelayState) -> _DelayState:
-        if state.computed:
-            return state
-        else:
-            return _DelayState(f=state.f, value=state.f(), computed=True)
-
     def deref(self) -> T | None:
-        return self._state.swap(self.__deref).value
+        state = self._state.deref()
+        if state.computed:
+            return state.value
+        # The body runs under a lock rather than inside an atom swap: a swap function may be
+        # retried, and would run the body once per thread racing to force the delay.
+        with self._lock:
+            state = self._state.deref()
+            if not state.computed:
+                state = _DelayState(f=state.f, value=state.f(), computed=True)
+                self._state.reset(state)
+            return state.value
 
     @property
     def is_realized(self) -> bool:
